@@ -27,6 +27,9 @@ SPEC = dict(
     ast=[("flowbig", 120, 2500), ("flow", 150, 2000), ("huge", 12, 150)],
     cs=[dict(family="flowbig", n=(60, 400), paths=(4, 6), calls=45, layouts=True,
              label="YarnTrace: random walks of big programs under random layouts"),
+        # jumps by expression whose destination changes from one execution of the statement to the next
+        dict(family="visits", n=(40, 300), paths=(3, 5), calls=50,
+             label="YarnTrace: jump graphs with computed destinations"),
         # scale: 12-24 nodes, 7 levels of nesting, groups of up to 13 options, lines of hundreds of characters, walks of 250 calls
         dict(family="huge", n=(10, 80), paths=(2, 3), calls=250, layouts=True,
              label="YarnTrace: long walks of very big programs under random layouts")],
